@@ -1,0 +1,28 @@
+//go:build verif
+
+package singlylinkedlist
+
+// VerifChain walks the cells from first (at most limit cells) and reports whether first, last
+// and size are consistent with the chain: size == chain length, last is the final cell of the
+// chain (its next is nil), and the list is empty iff first == nil && last == nil.
+func (list *List[T]) VerifChain(limit int) (forward []T, size int, consistent bool) {
+	forward = []T{}
+	var lastSeen *element[T]
+	n := 0
+	for e := list.first; e != nil && n < limit; e = e.next {
+		forward = append(forward, e.value)
+		lastSeen = e
+		n++
+	}
+	consistent = n == list.size && lastSeen == list.last
+	if list.last != nil && list.last.next != nil {
+		consistent = false
+	}
+	if (list.first == nil) != (list.last == nil) {
+		consistent = false
+	}
+	if (list.size == 0) != (list.first == nil && list.last == nil) {
+		consistent = false
+	}
+	return forward, list.size, consistent
+}
